@@ -25,7 +25,7 @@ ID = "C04"
 LEVEL = "exploration"
 TECHNIQUE = "bounded-exhaustive enumeration of MapSpec pipelines x persisting storages x load histories, observed in the writing interpreter and in a fresh interpreter started after the writer (and its managers) exited"
 RULE = ("G-MAP pipelines (all 1-function pipelines with one, two or three outputs; 2-function pipelines with a single-output first function whose second function consumes only `a`; thorough: every 2-function pipeline whose second function consumes `a` alone or `a` and its sibling `b`) x storage "
-        "{file_array, dict+persist, shared_memory_dict+persist, per-output mix} (+ for the one-output 1-function pipelines: a run with cleanup=False into a folder that holds stale input files of an attempt that died before run_info.json existed; and, with file_array and dict storage, a run into a folder that holds a COMPLETE earlier run on larger inputs which the writing process has already loaded through all three entry points) x load history = a de Bruijn sequence over {load_outputs(all), RunInfo.load, load_xarray_dataset} "
+        "{file_array, dict+persist, shared_memory_dict+persist, per-output mix} (+ for the one-output 1-function pipelines: a run with cleanup=False into a folder that holds stale input files of an attempt that died before run_info.json existed; and, with file_array and dict storage, a run into a folder that holds a COMPLETE earlier run on larger inputs which the writing process has already loaded through all three entry points; and, for the mapped one-output 1-function pipelines, the run made on a REAL process pool with shared_memory_dict and file_array storage; and a run whose list inputs hold instances of a class defined only in the writer's __main__) x load history = a de Bruijn sequence over {load_outputs(all), RunInfo.load, load_xarray_dataset} "
         "in which every entry point follows every other one (quick: ORXO in the writer and again in the fresh interpreter; thorough: a de Bruijn sequence with every ordered pair), executed first in the writing process and then again in a fresh interpreter. "
         "non-trivial = distinct (pipeline shape, storage assignment) with a mapped axis, observed in the fresh interpreter")
 ASSUMPTIONS = ["the fresh interpreter is a child process started after the writer process has exited (all manager processes of the run are gone)",
@@ -151,6 +151,13 @@ def writer_main(jobfile):
                 p.update_scope(scope, inputs="*", outputs="*")
                 inputs = {f"{scope}.{k}": v for k, v in inputs.items()}
             extra_kw = {}
+            if case.get("main_class"):
+                # the elements of the list inputs are instances of a class that exists ONLY in the __main__ module of the writing
+                # interpreter (a script's or notebook's own class): the folder must still load in an interpreter that lacks it
+                import __main__ as _main
+                if not hasattr(_main, "OnlyInWriter"):
+                    exec("class OnlyInWriter(str):\n    pass\n", _main.__dict__)  # noqa: S102
+                inputs = {k_: ([_main.OnlyInWriter(e) for e in v_] if isinstance(v_, list) else v_) for k_, v_ in inputs.items()}
             if case.get("prior") == "stale-inputs":
                 # the folder of an earlier attempt that died after writing (other) inputs and before run_info.json existed,
                 # continued with cleanup=False: what the folder records afterwards must be THIS run's inputs
@@ -189,8 +196,20 @@ def writer_main(jobfile):
                         ish = {k_: (v_[0] if len(v_) == 1 else v_) for k_, v_ in ish.items()}
                     if scope and ish:
                         ish = {f"{scope}.{k}": v for k, v in ish.items()}
-                    r = p.map(dict(inputs), run_folder=folder, internal_shapes=ish, parallel=False,
-                              storage=storage_arg(case["storage"]), persist_memory=True, **extra_kw)
+                    pool = None
+                    if case.get("pool") == "process":
+                        # the elements are computed (and, for shared_memory_dict / file_array, dumped) in REAL worker processes:
+                        # whatever the storage objects remember about their own writes exists in the workers' copies only
+                        import concurrent.futures as cf
+                        import multiprocessing
+                        pool = cf.ProcessPoolExecutor(2, mp_context=multiprocessing.get_context("fork"))
+                        extra_kw = {**extra_kw, "executor": pool}
+                    try:
+                        r = p.map(dict(inputs), run_folder=folder, internal_shapes=ish, parallel=pool is not None,
+                                  storage=storage_arg(case["storage"]), persist_memory=True, **extra_kw)
+                    finally:
+                        if pool is not None:
+                            pool.shutdown(wait=True)
             finally:
                 RunInfo.create = classmethod(orig)
             names = [(f"{scope}.{o}" if scope else o) for f in spec["funcs"] for o in f["outs"]]
@@ -330,6 +349,13 @@ def run_unit(unit):
             for st in ("file_array", "dict"):
                 cases.append({"spec": spec, "storage": st, "prior": "earlier-run-loaded"})
                 keys.append((gen_map.key(spec), "earlier-run-loaded", st) if gen_map.nontrivial(spec) else None)
+        if len(spec["funcs"]) == 1 and len(spec["funcs"][0]["outs"]) == 1 and spec["funcs"][0]["ms"]:
+            for st in ("shared_memory_dict", "file_array"):
+                cases.append({"spec": spec, "storage": st, "pool": "process"})
+                keys.append((gen_map.key(spec), "process-pool", st) if gen_map.nontrivial(spec) else None)
+        if len(spec["funcs"]) == 1 and len(spec["funcs"][0]["outs"]) == 1 and any(len(a) == 1 for a in spec["roots"].values()):
+            cases.append({"spec": spec, "storage": "file_array", "main_class": True})
+            keys.append((gen_map.key(spec), "main-class") if gen_map.nontrivial(spec) else None)
         if len(spec["funcs"]) == 1 and len(spec["roots"]) >= 2:
             # scoped names ("s.x", "s.y"): inputs and outputs whose file names contain a dot
             cases.append({"spec": spec, "storage": "file_array", "scope": "s"})
@@ -348,7 +374,7 @@ def run_unit(unit):
 
 
 def replay(art):
-    case = {k: art[k] for k in ("spec", "storage", "scope", "prior", "ishape_int") if k in art}
+    case = {k: art[k] for k in ("spec", "storage", "scope", "prior", "ishape_int", "pool", "main_class") if k in art}
     res = run_batch([case], art.get("seq") or de_bruijn("ORX", 2))
     return [s for s, _ in res[0]]
 
